@@ -163,6 +163,24 @@ void run_C09(Ctx &cx) {
     for (int v = 0; v < 256; v++) blk[16 * v + pos] = (uint8_t)v;
     key_case(cx, k, blk, "byte-values-block");
   }
+  // round-1 structure: after the first AddRoundKey the chosen state bytes all equal x, so that after SubBytes/ShiftRows a
+  // whole column (diagonal family) or the whole state is the constant S(x) - in particular 0x00 for x = 0x52.  Data-dependent
+  // shortcuts ("an all-zero column is a fixed point", missing log of 0, ...) live exactly there.
+  for (int x = 0; x < 256; x++) {
+    if (!cx.take()) continue;
+    cx.begin("{\"family\":\"round1-constant-columns\",\"x\":" + std::to_string(x) + "}");
+    vh::Rng r = cx.case_rng();
+    for (int rep = 0; rep < 4; rep++) {
+      uint8_t k[16];
+      r.fill(k, 16);
+      bytes blk = r.bytes_(16 * 6);
+      for (int c = 0; c < 4; c++) // column c after ShiftRows comes from bytes r + 4*((c+r)%4)
+        for (int row = 0; row < 4; row++) blk[16 * c + row + 4 * ((c + row) % 4)] = k[row + 4 * ((c + row) % 4)] ^ (uint8_t)x;
+      for (int i = 0; i < 16; i++) blk[64 + i] = k[i] ^ (uint8_t)x;                     // whole state constant
+      for (int i = 0; i < 16; i++) blk[80 + i] = k[i] ^ (uint8_t)(i < 8 ? x : x ^ 0xff); // two constant halves
+      key_case(cx, k, blk, "round1-constant-columns");
+    }
+  }
   long long nkeys = cx.thorough ? 3000000 : 40000;
   for (long long i = 0; i < nkeys; i++) {
     if (!cx.take()) continue;
